@@ -30,7 +30,9 @@ STUBS = SHIM_LIST + [
 ASSUMPTIONS = [
     "block counts, rank (<=2), index kinds are concrete per instance; chunk sizes / slice bounds unbounded integers",
     "old and new chunkings have equal per-axis sums (what Rechunk.chunks/_validate_rechunk enforce before planning)",
-    "balance=True, 'auto'/byte specs (C16), p2p, the planner (C15) and the elemwise pushdown glue are outside this check",
+    "balance=True: decided on concrete chunk-size lists only (rechunk_balance instances: advertised = legacy dask's balanced "
+    "chunks, kept by simplify and lowering through elemwise / transpose / expand_dims / rechunk fusion, values unchanged)",
+    "'auto'/byte specs (C16), p2p and the planner (C15) are outside this check",
 ]
 
 
